@@ -65,7 +65,7 @@ NATIVE = {
         functions=['Multiboot2Header::get_tag and the ten typed getters beyond the Kani region sizes, on compiled code (cross-check of the Verus proof, which rewrites Iterator::find to the tagiter_find glue)']),
     'n_mbi_getters_many_tags': dict(crate='multiboot2', file='boot_information.rs', props=['C04', 'C03', 'C17'],
         bound='20 getter kinds x {0,1,2,7,8,9,19..23,40,100,1100} filler tags x wanted kind present twice / absent, EFI map vs boot-services tag in both orders with 0/1/30 fillers, module iterator with 0/3/25 modules (572 regions); every getter compared with the first tag of its type in the walk',
-        functions=['BootInformation::get_tag and all typed getters, efi_memory_map_tag rule, module_tags beyond the Kani region sizes, on compiled code (cross-check of the Verus proof, which rewrites Iterator::find to the tagiter_find glue; framebuffer_tag and elf_sections() are not under a Verus contract of their own)']),
+        functions=['BootInformation::get_tag and all typed getters, efi_memory_map_tag rule, module_tags beyond the Kani region sizes, on compiled code (cross-check of the Verus proof, which rewrites Iterator::find to the tagiter_find glue; the deprecated elf_sections() is not under a Verus contract of its own)']),
     'n_ctor_large_contents': dict(crate='multiboot2', file='tag.rs', props=['C07', 'C16', 'C17'],
         bound='variable-length constructors with LARGE contents: strings of 0..=40, 63..65, 127, 128, 255..257, 300 bytes (cmdline, boot loader name, module); palettes of 0..65535 colours; network / SMBIOS / ELF / EFI-map payloads of 0..70000 bytes; 0..3000 memory areas (217 cases); byte image vs. the specification encoding, accessors read back',
         functions=['CommandLineTag::new', 'BootLoaderNameTag::new', 'ModuleTag::new', 'FramebufferTag::new + FramebufferType::serialize', 'NetworkTag::new', 'SmbiosTag::new', 'ElfSectionsTag::new', 'EFIMemoryMapTag::new_from_map', 'MemoryMapTag::new', 'new_boxed (large totals)']),
@@ -341,7 +341,8 @@ EXTRA_TRUST = {
             'le_u32(x) = u32::from_le_bytes(x.try_into().unwrap()): external_body primitive, requires x.len() == 4 (proved at both call sites: total mode), ensures the little-endian value (checked on compiled code by k_mb2hdr_find_header_small)',
             'vstd specifications of usize::min, <[T]>::get(Range), Option::{map, ok_or, and_then}, usize::checked_add, u32 -> usize try_into, the ? operator',
             'the returned sub-slice is specified by contents and length; its address identity is checked by Kani (bounded) and the native stand-in only'],
-    'C04': [FIND_TRUST, 'prelude: assume_specification of Option::map_or_else (None -> default(), Some(x) -> f(x))'],
+    'C04': [FIND_TRUST, 'prelude: assume_specification of Option::map_or_else (None -> default(), Some(x) -> f(x))',
+            'mb2_fb.rs: axiom_fb_tag_layout (external_body): layout of the repr(C, align(8)) DST FramebufferTag -- `header` at offset 0 (its value is the decoded header), `buffer` tail at offset 32 with `metadata` elements; used only by framebuffer_tag; checked on the compiled type by the k_fb_* Kani harnesses'],
     'C11': [FIND_TRUST, 'derive(PartialEq) on the field-less enum HeaderTagType is equality of variants (PartialEqSpecImpl written in hdr_core.rs)'],
     'C14': ['DynSizedStructure::{header,payload} field projections are external_body in V (address facts of &self.field); proved on compiled code by k_dyn_layout / k_ref_from_slice',
             'ptr_meta::from_raw_parts = (address, metadata) pair; deref_dst describes size_of_val by MaybeDynSized::layout_size (checked by k_dyn_layout for DynSizedStructure)'],
@@ -393,7 +394,7 @@ PROPS['C16']['v'] = [('u_mb2_dstlen', ['*Tag::dst_len', '*_BASE_SIZE', 'DynSized
 # C04: the typed getters select by `typ == T::ID` (TagTypeId::eq / TagType::eq, proved) and the framebuffer
 # colour information is decoded by buffer_type + Reader (proved for ALL palette lengths; the Kani harness bounds n <= 4)
 PROPS.setdefault('C04', dict(v=[], k_quick=[], k_thorough=[]))
-PROPS['C04']['v'] = [('u_mb2_fb', ['FramebufferTypeId::try_from', 'FramebufferTag::buffer_type', 'Reader::*']),
+PROPS['C04']['v'] = [('u_mb2_fb', ['FramebufferTypeId::try_from', 'FramebufferTag::buffer_type', 'Reader::*', 'BootInformation::framebuffer_tag', 'BootInformation::get_tag']),
                      ('u_mb2_core', ['TagTypeId::eq', 'TagType::eq']),
                      ('u_mb2_dstlen', ['MemoryMapTag::entry_size', 'MemoryMapTag::entry_version', 'MemoryMapTag::memory_areas',
                                        'SmbiosTag::major', 'SmbiosTag::minor', 'SmbiosTag::tables',
@@ -464,7 +465,7 @@ MANIFEST_TEXT = {
         note='Trusted: pointer-extent prelude; allocation-level provenance (Stacked/Tree Borrows not modelled); references are identified with their values in the spec logic (two distinct objects with equal contents are conflated); field-projection layout facts (efi_tag_wf / elf_tag_wf / fb_tag_wf, DynSizedStructure::{header,payload}) are assumed in V and checked by Kani where Kani can compile the type (not ElfSectionsTag: Kani ICE). Debug formatters are safe compositions of these functions (not run under a verifier). ELF section names read an external address (excluded by the statement). Known finding: VBEModeInfo.memory_model enum-typed field.',
     ),
     'C04': dict(
-        text='Proof on compiled code: for every fixed-size tag kind a loop-free Kani harness over ALL bytes of the tag (type/size words fixed to the specification values) obtains the typed view through the real ref_from_slice + cast and proves every accessor equal to the little-endian value at the specified offset and width (including all VBE control/mode fields over 784 symbolic bytes, MemoryArea entries, RSDP fields and checksum validity); the framebuffer type byte classification is proved for all 256 values in V and K. First-match selection is proved in Verus for ALL regions: get_tag, the typed getters of the dynamically sized kinds, efi_bs_not_exited_tag, efi_memory_map_tag (withheld iff a type-18 tag is in the walk) and ModuleIter::next are verified verbatim against `the typed view of the first tag of the C03 walk whose type number is <the specification`s literal>, None iff there is none` (Iterator::find is rewritten to tagiter_find, a loop over the verified TagIter::next: rule Rfind). The getters of the eleven fixed-size kinds are proved the same way (builder unit). Not under a Verus contract: framebuffer_tag (get_tag + buffer_type are each proved, their one-line composition needs the assumed field-projection layout fb_tag_wf) and the deprecated elf_sections(); these and the variable-length decoders are re-checked by bounded Kani harnesses and native stand-ins (labelled).',
+        text='Proof on compiled code: for every fixed-size tag kind a loop-free Kani harness over ALL bytes of the tag (type/size words fixed to the specification values) obtains the typed view through the real ref_from_slice + cast and proves every accessor equal to the little-endian value at the specified offset and width (including all VBE control/mode fields over 784 symbolic bytes, MemoryArea entries, RSDP fields and checksum validity); the framebuffer type byte classification is proved for all 256 values in V and K. First-match selection is proved in Verus for ALL regions: get_tag, the typed getters of the dynamically sized kinds, efi_bs_not_exited_tag, efi_memory_map_tag (withheld iff a type-18 tag is in the walk) and ModuleIter::next are verified verbatim against `the typed view of the first tag of the C03 walk whose type number is <the specification`s literal>, None iff there is none` (Iterator::find is rewritten to tagiter_find, a loop over the verified TagIter::next: rule Rfind). The getters of the eleven fixed-size kinds are proved the same way (builder unit). framebuffer_tag is proved too (first type-8 tag; unknown type byte -> an error carrying that byte, known -> that very tag) from the proved get_tag and buffer_type plus ONE trusted layout statement for the repr(C) DST FramebufferTag (axiom_fb_tag_layout: header field at offset 0, tail at offset 32; checked on the compiled type by the k_fb_* harnesses). Not under a Verus contract: the deprecated elf_sections(). The variable-length decoders and all getters are re-checked by bounded Kani harnesses and native stand-ins (labelled).',
         note='Oracle = Multiboot2 specification offsets written independently in the harnesses. Kani checks dev-profile semantics; invalid enum reads are not visible to Kani (see C08 O2). TRUSTED for the getter proof: core`s Iterator::find = `call next until the predicate accepts` for an iterator that overrides neither find nor try_fold (TagIter / ModuleIter are extracted with `onlyfns next`); Option::map_or_else specification (prelude).',
     ),
     'C05': dict(
